@@ -111,6 +111,9 @@ func soft(r Res) string {
 	if r.Kind == "n" && r.N == 0 {
 		return "NONE"
 	}
+	if r.Kind == "b" && !r.B {
+		return "NONE" // "no such key" may be reported as false or as an error
+	}
 	return r.String()
 }
 
@@ -120,6 +123,8 @@ type ObsOpts struct {
 	KVScans     bool // include RangeScan/PrefixScan lines
 	NoGetAll    bool
 	NoExpiry    bool // leave out the expiry instant of every live pair
+	// NoSetKeyExistence leaves SHasKey out (recorded finding c15-merge-forgets-emptied-set-keys)
+	NoSetKeyExistence bool
 	// Strict: record every result exactly (error vs empty vs zero are different observations). Only for
 	// oracles that compare the implementation with itself at two moments (before Close / after Open).
 	Strict bool
@@ -164,7 +169,9 @@ func Observe(h *DBH, u *Universe, oo ObsOpts) *Observation {
 			for _, k := range u.SK[b] {
 				add(fmt.Sprintf("s %q %q smembers", b, k), Op{K: "smembers", B: S(b), Key: S(k)})
 				add(fmt.Sprintf("s %q %q scard", b, k), Op{K: "scard", B: S(b), Key: S(k)})
-				add(fmt.Sprintf("s %q %q shaskey", b, k), Op{K: "shaskey", B: S(b), Key: S(k)})
+				if !oo.NoSetKeyExistence {
+					add(fmt.Sprintf("s %q %q shaskey", b, k), Op{K: "shaskey", B: S(b), Key: S(k)})
+				}
 			}
 		}
 		for _, b := range u.ZB {
